@@ -161,8 +161,14 @@ func (s *SelectStatement) ToStreamConfig() (*types.Config, string, error) {
 					if err != nil {
 						return nil, "", err
 					}
-					if n != "" {
-						// If string literal, use parsed field name (remove quotes)
+					if lit, ok := unquoteStringLiteral(fieldName); ok {
+						// Unaliased string literal: keep the quoted text as the source and name the
+						// column after its content ("'text':text"). The bare content is not a valid
+						// field spec: a ':' inside it would be read as the alias separator (and an
+						// empty content would leave no spec at all), yielding extra output columns.
+						simpleFields = append(simpleFields, strings.TrimSpace(fieldName)+":"+lit)
+					} else if n != "" {
+						// Function call etc.: use parsed field name
 						simpleFields = append(simpleFields, n)
 					} else {
 						// Otherwise use original expression
@@ -321,6 +327,18 @@ func (s *SelectStatement) ToStreamConfig() (*types.Config, string, error) {
 	config.WhereAnalyticCalls = whereCalls
 
 	return &config, rewrittenCondition, nil
+}
+
+// unquoteStringLiteral reports whether expr is a quoted string literal ('...' or "...")
+// and returns its content without the quotes.
+func unquoteStringLiteral(expr string) (string, bool) {
+	trimmed := strings.TrimSpace(expr)
+	if len(trimmed) >= 2 &&
+		((strings.HasPrefix(trimmed, "'") && strings.HasSuffix(trimmed, "'")) ||
+			(strings.HasPrefix(trimmed, "\"") && strings.HasSuffix(trimmed, "\""))) {
+		return trimmed[1 : len(trimmed)-1], true
+	}
+	return "", false
 }
 
 // isAnalyticField 判断 Field 是否为分析函数（TypeAnalytical）。
